@@ -6,7 +6,7 @@ semaphore; the controller (main thread) executes a schedule = list of thread ids
 next parking point.
 
 usage:  r_once.py sched    < {"n":2,"moves":[..],"has_pos":[a,b],"skip_first_acquire":bool,"battery":bool}
-        r_once.py history  < {"histories":[[cfg,..],..],"hundred":bool}         cfg in fresh|user|dv_on|dv_off|gen
+        r_once.py history  < {"histories":[[cfg,..],..],"hundred":bool}         cfg in fresh|user|dv_on|dv_off|gen|forbid|poshook
         r_once.py stress   < {"threads":16}
 labels (same numbering as LSP.Once.label): 0 start, 1 finished, 2 crashed, 3 at lock acquire, 4 at lock release,
         5 / 6 inside the dict iteration (1st / 2nd position), 7 before the first resolve_types, 8 before the last one.
@@ -221,21 +221,48 @@ def battery(T):
     return structure, unstructure
 
 
-def run_battery(conv, T):
+def exc_kind(e):
+    """outcome kind of a failure: the exception type, and for cattrs' validation groups the leaf types as well"""
+    name = type(e).__name__
+    subs = getattr(e, "exceptions", None)
+    if subs:
+        return name + "(" + ",".join(sorted({exc_kind(x) for x in subs})) + ")"
+    return name
+
+
+def strict_inputs(T):
+    rng = {"start": {"line": 1, "character": 2}, "end": {"line": 3, "character": 4}}
+    return [
+        ("Location", {"uri": "file:///a.py", "range": rng}),
+        ("Diagnostic", {"range": rng, "message": "m", "severity": 1, "code": "E1"}),
+        ("Location", {"uri": "file:///a.py", "range": {"start": {"line": 1, "character": 2}, "end": {"line": 3}}}),          # missing required key, nested
+        ("Location", {"uri": "file:///a.py", "range": {"start": {"line": 1, "character": 2, "bogus": 1}, "end": {"line": 3, "character": 4}}}),  # unknown key, nested
+        ("Diagnostic", {"range": rng}),                                                                                         # missing required key
+        ("Position", {"line": 1, "character": 2, "bogus": True}),                                                             # unknown key
+        ("TextEdit", {"range": rng, "newText": 5, "extra": {"a": 1}}),
+        ("CompletionList", {"items": [{"label": "a", "unknownKey": 1}]}),                                                     # missing isIncomplete + unknown key in an item
+    ]
+
+
+def run_battery(conv, T, strict=False):
+    """strict=False: values and ok/raise only (comparable across configurations);
+    strict=True: + invalid inputs, failures recorded with their exception kind (comparable within one configuration)"""
     st, un = battery(T)
+    if strict:
+        st = st + strict_inputs(T)
     out = []
     for name, j in st:
         ty = getattr(T, name)
         try:
             o = conv.structure(j, ty)
             out.append(["ok", repr(o), canon(conv.unstructure(o, ty) if not isinstance(o, (int, str)) else conv.unstructure(o))])
-        except Exception:
-            out.append(["raise"])
+        except Exception as e:
+            out.append(["raise", exc_kind(e)] if strict else ["raise"])
     for o in un:
         try:
             out.append(["ok", canon(conv.unstructure(o))])
-        except Exception:
-            out.append(["raise"])
+        except Exception as e:
+            out.append(["raise", exc_kind(e)] if strict else ["raise"])
     return out
 
 
@@ -322,7 +349,19 @@ def mode_history(spec):
             return converters.get_converter(C.Converter(detailed_validation=False))
         if cfg == "gen":
             return converters.get_converter(C.GenConverter())
+        if cfg == "forbid":
+            return converters.get_converter(C.Converter(detailed_validation=False, forbid_extra_keys=True))
+        if cfg == "poshook":
+            # a user converter that already (un)structures Position its own way (zero-based wire <-> one-based memory)
+            u = C.Converter()
+            u.register_structure_hook(T.Position, lambda o, _: T.Position(line=o["line"] + 1, character=o["character"] + 1))
+            u.register_unstructure_hook(T.Position, lambda p: {"line": p.line - 1, "character": p.character - 1})
+            return converters.get_converter(u)
         raise ValueError(cfg)
+
+    def both(cv):
+        """"<digest comparable across configurations>:<digest comparable within the configuration>" """
+        return digest(run_battery(cv, T)) + ":" + digest(run_battery(cv, T, strict=True))
 
     out = []
     convs = []
@@ -332,22 +371,24 @@ def mode_history(spec):
             try:
                 cv = make(cfg)
                 convs.append((cfg, cv))
-                row.append(digest(run_battery(cv, T)))
+                row.append(both(cv))
             except Exception as e:
                 row.append("create-raise:" + type(e).__name__ + ":" + str(e)[:100])
         out.append(row)
     # earlier converters re-checked after all later ones were created
-    later = [digest(run_battery(cv, T)) for _, cv in convs[:spec.get("recheck", 60)]]
+    later = [[cfg, both(cv)] for cfg, cv in convs[:spec.get("recheck", 60)]]
     hundred = None
     if spec.get("hundred"):
         cv = None
         for _ in range(100):
             cv = converters.get_converter()
-        hundred = digest(run_battery(cv, T))
-    detail = run_battery(converters.get_converter(), T)
-    json.dump({"histories": out, "later": later, "hundred": hundred, "n_battery": len(detail),
-               "n_ok": sum(1 for d in detail if d[0] == "ok"), "detail": detail if spec.get("detail") else None,
-               "distinct_identities": len({id(cv) for _, cv in convs}), "n_convs": len(convs)}, sys.stdout, default=repr)
+        hundred = both(cv)
+    detail = run_battery(converters.get_converter(), T, strict=True) if spec.get("detail") else None
+    if spec.get("detail_cfg"):
+        detail = run_battery(make(spec["detail_cfg"]), T, strict=True)
+    n_st, n_un = battery(T)
+    json.dump({"histories": out, "later": later, "hundred": hundred, "n_battery": len(n_st) + len(n_un), "n_strict": len(strict_inputs(T)),
+               "detail": detail, "distinct_identities": len({id(cv) for _, cv in convs}), "n_convs": len(convs)}, sys.stdout, default=repr)
 
 
 def mode_stress(spec):
